@@ -584,4 +584,7 @@ def check(ctx):
                                "key_classes": n_cls, "signatures": n_sig}  # fmt: skip
     rep.note(f"{n_args} wire arguments ({n_der} derived, {n_lit} literal); {n_sym} generic symbolic attachments; {n_regs} registrations; "
              f"{n_cls} classes with resource keys; {n_sig} resource-function signatures bound")
+    from .c10_extra import extra
+
+    extra(ctx, rep)
     return rep
